@@ -23,15 +23,28 @@ theorem C16_paren (fuel : Nat) (st : St) (as : List String) (t : Node) (hg : st.
   simp [resolveElements, enterRes_ok _ _ hg]
 
 /-- `Partial<T>` makes every property and method of T optional, `Required<T>` makes every one required — and neither
-    adds or removes a key. -/
+    adds, removes or renames a key.  (A getter signature has no optional flag: under `Partial` it becomes the optional property
+    it declares, see `C16_partial_over_getter`.) -/
 theorem C16_partial_required_flags (v : Bool) (m : Node) :
-    (setOptional v m).kind = m.kind ∧ memberKeyName (setOptional v m) = memberKeyName m := by
+    memberKeyName (setOptional v m) = memberKeyName m
+    ∧ ((setOptional v m).kind = m.kind ∨ (v = true ∧ m.kind = .tsGetterSig ∧ (setOptional v m).kind = .tsPropSig)) := by
   unfold setOptional
   simp only
   split
   · rename_i ks; cases ks <;> simp [Node.kind, memberKeyName]
   · rename_i ks; cases ks <;> simp [Node.kind, memberKeyName]
-  · exact ⟨rfl, rfl⟩
+  · rename_i comp ks
+    cases v
+    · simp
+    · cases ks <;> simp [Node.kind, memberKeyName]
+  · exact ⟨rfl, Or.inl rfl⟩
+
+/-- `Partial` over a getter signature: the optional (readonly) property with the same key, computedness and type (fix 1f8b37e:
+    the getter used to stay `required`). -/
+theorem C16_partial_over_getter (comp : String) (ks : List Node) :
+    setOptional true (.mk .tsGetterSig [comp] ks) = .mk .tsPropSig ["true", comp, "true"] ks
+    ∧ setOptional false (.mk .tsGetterSig [comp] ks) = .mk .tsGetterSig [comp] ks := by
+  simp [setOptional]
 
 theorem C16_partial_sets_optional (ro comp opt : String) (ks : List Node) :
     setOptional true (.mk .tsPropSig [ro, comp, opt] ks) = .mk .tsPropSig [ro, comp, "true"] ks
